@@ -421,6 +421,10 @@ func registerIntercepts(g *Engine) {
 		}
 		return val
 	}
+	ic["verif:verifYield"] = func(e *Exec, fn *ssa.Function, a []Value) Value {
+		e.syncPoint("verifYield")
+		return nil
+	}
 	ic["verif:verifSettle"] = func(e *Exec, fn *ssa.Function, a []Value) Value { return nil }
 	// verifRunGoroutines: let the spawned coroutines run until all of them are
 	// parked or finished (see coro.go).
@@ -433,8 +437,7 @@ func registerIntercepts(g *Engine) {
 
 	// ----- sync -----
 	nop := func(e *Exec, fn *ssa.Function, a []Value) Value { return nil }
-	for _, n := range []string{"(*sync.Mutex).Lock", "(*sync.Mutex).Unlock", "(*sync.RWMutex).Lock", "(*sync.RWMutex).Unlock",
-		"(*sync.RWMutex).RLock", "(*sync.RWMutex).RUnlock",
+	for _, n := range []string{
 		"(*sync.Cond).Broadcast", "(*sync.Cond).Signal", "runtime.KeepAlive", "runtime.SetFinalizer",
 		"internal/race.Acquire", "internal/race.Release", "internal/race.ReleaseMerge", "internal/race.Disable", "internal/race.Enable",
 		"internal/race.Read", "internal/race.Write", "internal/race.ReadRange", "internal/race.WriteRange"} {
@@ -443,12 +446,71 @@ func registerIntercepts(g *Engine) {
 	// a spin-wait (Gosched in a retry loop) waits for another goroutine: in the
 	// sequential model that is a blocked operation
 	ic["runtime.Gosched"] = func(e *Exec, fn *ssa.Function, a []Value) Value {
+		if e.exploring() && e.curThread != nil {
+			e.threadYield(yieldGosched, nil, "Gosched")
+			return nil
+		}
 		if e.yield() {
 			return nil // somebody else ran: the caller's retry loop re-checks
 		}
 		panic(pathEnd{EndDeadlock, "spin-wait (runtime.Gosched)" + e.where()})
 	}
-	ic["(*sync.Mutex).TryLock"] = func(e *Exec, fn *ssa.Function, a []Value) Value { return e.tb.True() }
+	// mutexes: no-ops in the sequential modes; real blocking semantics when
+	// schedules are explored
+	lock := func(e *Exec, fn *ssa.Function, a []Value) Value {
+		if !e.exploring() || e.curThread == nil {
+			return nil
+		}
+		e.syncPoint("Lock")
+		m := e.mutexOf(a[0])
+		e.blockUntil(func() bool { return !m.held && m.readers == 0 }, "Mutex.Lock")
+		m.held = true
+		return nil
+	}
+	unlock := func(e *Exec, fn *ssa.Function, a []Value) Value {
+		if !e.exploring() || e.curThread == nil {
+			return nil
+		}
+		m := e.mutexOf(a[0])
+		if !m.held {
+			panic(e.panicEnd("sync: unlock of unlocked mutex"))
+		}
+		m.held = false
+		e.syncPoint("after Unlock")
+		return nil
+	}
+	ic["(*sync.Mutex).Lock"], ic["(*sync.RWMutex).Lock"] = lock, lock
+	ic["(*sync.Mutex).Unlock"], ic["(*sync.RWMutex).Unlock"] = unlock, unlock
+	ic["(*sync.RWMutex).RLock"] = func(e *Exec, fn *ssa.Function, a []Value) Value {
+		if !e.exploring() || e.curThread == nil {
+			return nil
+		}
+		e.syncPoint("RLock")
+		m := e.mutexOf(a[0])
+		e.blockUntil(func() bool { return !m.held }, "RWMutex.RLock")
+		m.readers++
+		return nil
+	}
+	ic["(*sync.RWMutex).RUnlock"] = func(e *Exec, fn *ssa.Function, a []Value) Value {
+		if !e.exploring() || e.curThread == nil {
+			return nil
+		}
+		m := e.mutexOf(a[0])
+		m.readers--
+		return nil
+	}
+	ic["(*sync.Mutex).TryLock"] = func(e *Exec, fn *ssa.Function, a []Value) Value {
+		if !e.exploring() || e.curThread == nil {
+			return e.tb.True()
+		}
+		e.syncPoint("TryLock")
+		m := e.mutexOf(a[0])
+		if m.held || m.readers > 0 {
+			return e.tb.False()
+		}
+		m.held = true
+		return e.tb.True()
+	}
 	// WaitGroup: a counter; Wait blocks (yields) until it is zero. Under the
 	// "skip" goroutine policy the counted goroutines never run, so Wait returns.
 	wgCount := func(e *Exec, p Value) (*Loc, int) {
@@ -467,6 +529,12 @@ func registerIntercepts(g *Engine) {
 		return nil
 	}
 	ic["(*sync.WaitGroup).Wait"] = func(e *Exec, fn *ssa.Function, a []Value) Value {
+		if e.exploring() && e.curThread != nil {
+			e.syncPoint("WaitGroup.Wait")
+			l, _ := wgCount(e, a[0])
+			e.blockUntil(func() bool { n, _ := e.hidden[l].(int); return n <= 0 }, "WaitGroup.Wait")
+			return nil
+		}
 		if e.cfg.GoPolicy != "queue" {
 			return nil
 		}
@@ -485,11 +553,18 @@ func registerIntercepts(g *Engine) {
 	}
 	ic["(*sync.Once).Do"] = func(e *Exec, fn *ssa.Function, a []Value) Value {
 		l := e.derefLoc(a[0].(PtrVal))
-		if _, done := e.hidden[l]; done {
+		e.syncPoint("Once.Do")
+		if st, seen := e.hidden[l]; seen {
+			if e.exploring() && e.curThread != nil {
+				// another thread is inside f: Do returns only when f has returned
+				e.blockUntil(func() bool { return e.hidden[l] == "done" }, "Once.Do")
+			}
+			_ = st
 			return nil
 		}
-		e.hidden[l] = true
-		e.callFuncVal(a[1].(FuncVal), nil, nil)
+		e.hidden[l] = "running"
+		e.callFuncVal(a[1].(FuncVal), nil, e.curFrame)
+		e.hidden[l] = "done"
 		return nil
 	}
 	// sync.Pool: a free list (Put stores, Get returns a stored object or New())
@@ -577,21 +652,31 @@ func registerIntercepts(g *Engine) {
 	}
 
 	// ----- sync/atomic -----
-	atomicLoad := func(e *Exec, fn *ssa.Function, a []Value) Value { return e.load(a[0].(PtrVal)) }
-	atomicStore := func(e *Exec, fn *ssa.Function, a []Value) Value { e.store(a[0].(PtrVal), a[1]); return nil }
+	atomicLoad := func(e *Exec, fn *ssa.Function, a []Value) Value {
+		e.syncPoint("atomic load")
+		return e.load(a[0].(PtrVal))
+	}
+	atomicStore := func(e *Exec, fn *ssa.Function, a []Value) Value {
+		e.syncPoint("atomic store")
+		e.store(a[0].(PtrVal), a[1])
+		return nil
+	}
 	atomicAdd := func(e *Exec, fn *ssa.Function, a []Value) Value {
+		e.syncPoint("atomic add")
 		p := a[0].(PtrVal)
 		n := e.tb.Bin(OAdd, e.scalar(e.load(p)), e.scalar(a[1]))
 		e.store(p, n)
 		return n
 	}
 	atomicSwap := func(e *Exec, fn *ssa.Function, a []Value) Value {
+		e.syncPoint("atomic swap")
 		p := a[0].(PtrVal)
 		old := e.load(p)
 		e.store(p, a[1])
 		return old
 	}
 	atomicCAS := func(e *Exec, fn *ssa.Function, a []Value) Value {
+		e.syncPoint("atomic cas")
 		p := a[0].(PtrVal)
 		old := e.load(p)
 		if e.branch(e.valueEq(old, a[1])) {
@@ -831,6 +916,9 @@ func registerIntercepts(g *Engine) {
 	// closed, ctx.Err() when the context is done, else the task runs
 	// synchronously to completion.
 	ic["(*github.com/pion/ice/v4/internal/taskloop.Loop).Run"] = func(e *Exec, fn *ssa.Function, a []Value) Value {
+		if e.exploring() {
+			return e.passthrough(fn, a) // schedules are explored on the real loop
+		}
 		l := e.derefLoc(a[0].(PtrVal))
 		st := l.typ.Underlying().(*types.Struct)
 		var done ChanVal
@@ -860,6 +948,9 @@ func registerIntercepts(g *Engine) {
 	}
 
 	ic["(*github.com/pion/ice/v4/internal/taskloop.Loop).CloseWithPreStop"] = func(e *Exec, fn *ssa.Function, a []Value) Value {
+		if e.exploring() {
+			return e.passthrough(fn, a)
+		}
 		// close(done); preStop(); the wait for the loop goroutine (and its
 		// on-close callback) is outside the sequential model
 		l := e.derefLoc(a[0].(PtrVal))
